@@ -154,7 +154,19 @@ impl Family for B3 {
         let mut r = Rng::new(s.seed);
         let mut th = 0u64;
         // the keyring's file name varies: no extension, a temporary-looking one, a space, a dot file
-        let f: &str = ["keys.txt", "keyring", "keyring.tmp", "my keys.txt", ".keyring", "keys.txt.bak"][(s.seed % 6) as usize];
+        let mut f: &str = ["keys.txt", "keyring", "keyring.tmp", "my keys.txt", ".keyring", "keys.txt.bak"][(s.seed % 6) as usize];
+        // ... or sits in a directory, one of them literally named "~" (kestrel is not a shell: no expansion)
+        match (s.seed >> 20) % 10 {
+            0 => {
+                let _ = std::fs::create_dir_all(sb.dir.join("~"));
+                f = "~/keys.txt";
+            }
+            1 => {
+                let _ = std::fs::create_dir_all(sb.dir.join("sub dir"));
+                f = "sub dir/keys.txt";
+            }
+            _ => {}
+        }
         let init_sk = r.arr32();
         let init_name = "initial-key-000";
         let init_pw = "initial pw";
@@ -186,7 +198,7 @@ impl Family for B3 {
             Initial::Symlink => {
                 let t = keyring_text(&[KeySpec { name: init_name.into(), sk: init_sk, password: Some(init_pw.into()), salt: r.arr32() }]);
                 sb.write("real-keyring.txt", t.as_bytes());
-                let _ = std::os::unix::fs::symlink("real-keyring.txt", sb.dir.join(f));
+                let _ = std::os::unix::fs::symlink(if f.contains('/') { "../real-keyring.txt" } else { "real-keyring.txt" }, sb.dir.join(f));
                 known.push((init_name.into(), init_pw.into()));
             }
             Initial::Latin1Comment => {
@@ -234,9 +246,11 @@ impl Family for B3 {
             inv.pass_via_tty = typed(s, k);
             inv.entropy_seed = if s.os_rng { None } else { Some(s.seed ^ (k as u64 + 1) * 0x9E37) };
             if let Some((kth, errno, cap)) = g.fault {
-                let mut plan = if errno == 27 { format!("f={}:r:{}:E5", f, kth) } else { format!("f={}:w:{}:E{}", f, kth, errno) };
+                // (the shim's file class goes by the base name)
+                let fb = f.rsplit('/').next().unwrap_or(f);
+                let mut plan = if errno == 27 { format!("f={}:r:{}:E5", fb, kth) } else { format!("f={}:w:{}:E{}", fb, kth, errno) };
                 if cap > 0 {
-                    plan.push_str(&format!(";f={}:w:*:C{}", f, cap));
+                    plan.push_str(&format!(";f={}:w:*:C{}", fb, cap));
                 }
                 inv.fault_plan = Some(plan);
             }
